@@ -8,8 +8,10 @@ NOT_BUILT = dict()
 
 GENERIC = (
     'Exhaustive static check of named necessary conditions of the '
-    'property over all sites and paths of the current source (nothing is '
-    'executed): ')
+    'property over all sites and paths of the current source (nothing of '
+    'the package is imported or run; where models are named, single '
+    'functions are interpreted over every state of a small model by the '
+    'checker\'s own evaluator of the syntax tree): ')
 
 
 HYGIENE = [hygiene.r_falsy, hygiene.r_enum, hygiene.r_cache,
@@ -413,3 +415,99 @@ prop('C19', [
     'anything about the C libraries behind the wrappers.',
     'abstract interpretation of Cython dispatch tables; reference '
     'typestate on DdNode locals', cython=True)
+
+
+# ---------------------------------------------------------------- the models
+# Functions interpreted over every state of a small model (rules/models.py,
+# DESIGN section 13.2): what they add to the clauses decided, and what they
+# leave undecided.  The interpretation is of the syntax tree, function by
+# function with callee summaries or callees interpreted the same way;
+# nothing of the package is imported or executed.
+MODEL_TEXT = {
+    'C01': ' Models: `ite` interpreted with all it calls on two managers '
+           'over three variables (720 triples) against truth tables, '
+           'canonical reference and consistent tables afterwards; '
+           '`find_or_add` for every valid request; `autoref.BDD.apply` '
+           'against a recording integer manager under five node '
+           'numberings; the `Function` operators under five numberings.',
+    'C02': ' Models: `find_or_add`, `undeclare_vars`, and the operations '
+           '(`ite`, `quantify`, `let`, `image`, `preimage`) on small '
+           'managers: every result is the canonical reference of its '
+           'function and leaves the tables reduced and consistent.',
+    'C03': ' Models: `quantify` for every reference, subset of variables '
+           'and quantifier on two managers over three variables against '
+           'truth tables; `autoref.BDD.apply` under five node numberings.',
+    'C04': ' Models: `let` with function values (528 substitutions, among '
+           'them constants and low node numbers) and with Boolean values '
+           '(288 cofactors) against truth tables.',
+    'C05': ' Models: the shared translator bound to the manager of each '
+           'call and reset after it; identifiers that begin with a '
+           'keyword probed through the source-level lexer.',
+    'C06': ' Models: `incref` / `decref`, `find_or_add` (count zero, one '
+           'reference per edge).',
+    'C07': ' Models: `swap` on nine managers (levels exchanged, outside '
+           'references keep number and function, tables and counts '
+           'consistent, per-level index exact, sizes returned); the '
+           'functions that drive `swap` on a manager reduced to its '
+           'variable order (every start and target permutation of four '
+           'variables, pairs adjacent, sifted variable at a position of '
+           'least size, never larger).',
+    'C08': ' Models: `Function.__init__` / `__del__` against a recording '
+           'manager; `BDD.__del__`; `autoref.BDD.apply`.',
+    'C10': ' Models: `support`, `descendants`, `is_essential` against '
+           'reachability; `count` and `pick_iter` against truth tables '
+           '(702 calls on three managers).',
+    'C11': ' Models: `copy_vars` leaves the two managers agreeing or '
+           'refuses.',
+    'C12': ' Models: `_dump_bdd` then `load` on what it wrote (fresh '
+           'manager, other variable order with levels=False, same '
+           'manager); `BDD(levels)` for level tables listed in another '
+           'order.',
+    'C13': ' Models: `image` (any order, also nested non-adjacent pairs) '
+           'and `preimage` (adjacent pairs) on managers over four '
+           'variables against rename / conjoin / quantify on truth '
+           'tables.',
+    'C14': ' Models: `add_var` for every (name, level) request on five '
+           'managers; `undeclare_vars` for every subset on five managers; '
+           '`BDD(levels)`; `copy_vars`.',
+    'C15': ' Models: `MDD.find_or_add`, `MDD._top_cofactor`, `MDD.ite` '
+           'and `MDD.apply` on a diagram with a three-valued above a '
+           'two-valued variable (710 calls against the values over all '
+           'six assignments); `incref` / `decref`.',
+    'C16': ' Models: `dddmp.load` on the output of the parser for five '
+           'small files (levels with gaps, node numbers in no order, '
+           'constant roots) against a strict reference manager; '
+           '`_parse_header` / `_parse_body` for .varinfo 0, 1, 3.',
+    'C18': ' Models: `_to_dot` with `DotGraph` on twelve graphs (arcs, '
+           'styles, complement marks, one external reference per root), '
+           'and the legend of doc.md against the styles used; `support` / '
+           '`descendants`.',
+    'C19': ' Models: the finalisers of the four Cython `Function` classes '
+           'against a recording library call.',
+}
+NOT_DECIDED = {
+    'C01': 'the ITE recursion on diagrams beyond the three-variable '
+           'models; warm-cache histories beyond the invalidation rule.',
+    'C02': 'the "iff" beyond the small models (global induction over the '
+           'node table); histories of operations.',
+    'C03': 'quantification on diagrams beyond the three-variable models.',
+    'C04': 'substitution on diagrams beyond the three-variable models; '
+           'renaming to variables outside the support (decided by the '
+           'structural rules only).',
+    'C07': 'managers with more than three (swap) or four (drivers) '
+           'variables; sifting by set order of the names.',
+    'C10': 'counts and enumerations on diagrams beyond the '
+           'three-variable models.',
+    'C13': 'relations over more than two pairs.',
+    'C15': 'bdd_to_mdd: bit significance, zone selection, reorder to '
+           'zones.',
+    'C16': 'the header grammar itself (PLY); .varinfo 2 and 4.',
+    'C18': 'graph isomorphism of the networkx export; rendering.',
+}
+for _pid, _t in MODEL_TEXT.items():
+    PROPS[_pid]['explanation'] += _t
+    PROPS[_pid]['technique'] += (
+        '; finite-model interpretation of the syntax tree of single '
+        'functions (no execution of the package)')
+for _pid, _t in NOT_DECIDED.items():
+    PROPS[_pid]['not_decided'] = _t
